@@ -76,6 +76,10 @@ def indptrOf : List (List Nat) → List Nat
 /-- `coo.tocsr()` of entries that are already row-major, sorted and duplicate-free -/
 def csrOfRows (rows : List (List Nat)) : Dag := ⟨indptrOf rows, rows.flatten⟩
 
+/-- canonical CSR structure (rows sorted, no duplicate, no stored zero) of an edge predicate -/
+def csrOfEdge (n : Nat) (edge : Nat → Nat → Bool) : Dag :=
+  csrOfRows (tab n fun i => (List.range n).filter (edge i))
+
 /-- `get_dag(adjacency, order=order)` : loop over `np.unique(order)` (any enumeration of the values: the
     result does not depend on it), `eliminate_zeros`, `tocsr` -/
 def getDag (n : Nat) (edge : Nat → Nat → Bool) (order : List Int) : Dag :=
@@ -158,18 +162,28 @@ structure PrangeDesc where
   function : String
   loopVar : String
   reductions : List (String × String)   -- (operator, variable) of every in-place update of a plain name
+  reductionTypes : List String          -- declared C type of each of these variables ("?" if not a C variable)
   otherStores : List (String × String)  -- every other store of the body (kind, base name)
   reductionReads : Nat                  -- reads of a reduction variable inside the body
   callees : List Callee
 deriving Repr, DecidableEq
 
-/-- The loop is a pure `+` reduction: one reduction variable updated with `+=` exactly once and not read
-    otherwise, no other store in the body, every callee defined here, `nogil`, storing only to its locals and
-    calling nothing unknown. Then iterations communicate only through the reduction and the loop's value is
-    `parReduce` of some schedule. -/
+/-- C integer types: `+` on them is associative and commutative (modulo 2^w), unlike `+` on `double` -/
+def integerCTypes : List String :=
+  ["int", "long", "short", "char", "long long", "Py_ssize_t", "size_t", "ssize_t", "unsigned int", "unsigned long",
+   "unsigned long long", "unsigned short", "unsigned char"]
+
+/-- The loop is a pure integer `+` reduction: one reduction variable of a C integer type updated with `+=`
+    exactly once and not read otherwise, no other store in the body, every callee defined here, `nogil`, storing
+    only to its locals and calling nothing unknown. *Reading* (not a theorem: the compiled loop and the OpenMP
+    runtime are outside the model): iterations then communicate only through the reduction, and the loop's value is
+    taken to be `parReduce` of some valid schedule. -/
 def PrangeDesc.raceFree (d : PrangeDesc) : Bool :=
   (match d.reductions with
    | [(op, _)] => op == "+"
+   | _ => false) &&
+  (match d.reductionTypes with
+   | [t] => integerCTypes.contains t
    | _ => false) &&
   d.otherStores.isEmpty && d.reductionReads == 0 &&
   d.callees.all fun c => c.known && c.nogil && c.nonlocalStores == 0 && c.unknownCalls == 0
@@ -330,10 +344,16 @@ def coreInit (indptr : List Nat) : CoreState :=
 def computeCore (indptr indices : List Nat) : Option (List Int) :=
   (coreLoop indptr indices (indptr.length - 1) (coreInit indptr)).map (·.labels)
 
+/-- the edges `get_core_decomposition` works on since the repair 00914a54 of /repo: duplicate entries summed
+    (`val i j` is the sum of the stored entries `(i, j)`), zeros dropped -/
+def coreEdge (val : Nat → Nat → Rat) (i j : Nat) : Bool := val i j != 0
+
 /-- `get_core_decomposition(adjacency)`: `check_format`, `check_square` (a non-square matrix is refused), then
-    `compute_core` on the CSR arrays -/
-def getCoreDecomposition (nRow nCol : Nat) (indptr indices : List Nat) : Except PyErr (Option (List Int)) :=
-  if nRow != nCol then .error .valueError else .ok (computeCore indptr indices)
+    `sum_duplicates` / `eliminate_zeros` on a copy when the matrix is not canonical or stores a zero (a canonical
+    matrix without stored zero is its own `csrOfEdge`), then `compute_core` on the CSR arrays -/
+def getCoreDecomposition (nRow nCol : Nat) (val : Nat → Nat → Rat) : Except PyErr (Option (List Int)) :=
+  if nRow != nCol then .error .valueError
+  else .ok (computeCore (csrOfEdge nRow (coreEdge val)).indptr (csrOfEdge nRow (coreEdge val)).indices)
 
 /-! ### cliques.pyx -/
 
@@ -432,20 +452,19 @@ def insertBy (key : Nat → Int) (v : Nat) : List Nat → List Nat
 def argsort (d : List Int) : List Nat :=
   (List.range d.length).foldr (insertBy (fun i => d.getD i 0)) []
 
-/-- CSR structure of the stored non-zero entries of a canonical matrix -/
-def csrOfEdge (n : Nat) (edge : Nat → Nat → Bool) : Dag :=
-  csrOfRows (tab n fun i => (List.range n).filter (edge i))
-
 /-- `count_cliques(adjacency, clique_size)` on a matrix of shape `nRow × nCol`: the clique size is checked first,
-    then `get_core_decomposition` refuses a non-square matrix -/
-def countCliquesEntry (nRow nCol : Nat) (g : Dag) (edge : Nat → Nat → Bool) (k : Int) :
+    then `get_core_decomposition` (which refuses a non-square matrix and works on `coreEdge val`), then `get_dag` on
+    the matrix itself: `edge i j` = some stored entry `(i, j)` is non-zero (`astype(bool)` converts entry by entry
+    and adds duplicates as booleans, so `1` and `-1` stored at the same place are an edge of the DAG although they
+    cancel in `coreEdge`) -/
+def countCliquesEntry (nRow nCol : Nat) (val : Nat → Nat → Rat) (edge : Nat → Nat → Bool) (k : Int) :
     Except PyErr (Option Nat) :=
   if k < 2 then .error .valueError
-  else if nRow != nCol then .error .valueError
   else
-    match computeCore g.indptr g.indices with
-    | none => .ok none
-    | some values => (countCliquesWith nRow edge k.toNat (argsort values)).map some
+    match getCoreDecomposition nRow nCol val with
+    | .error e => .error e
+    | .ok none => .ok none
+    | .ok (some values) => (countCliquesWith nRow edge k.toNat (argsort values)).map some
 
 /-- `count_cliques(adjacency, clique_size)`: `g` is the CSR structure `get_core_decomposition` receives
     (all stored entries), `edge` the stored non-zero entries (`astype(bool)` in `get_dag`). -/
